@@ -81,6 +81,11 @@ def expected_class(backend, solver, vectorize, delay, sparse=False, jac=False):
 
 
 def cell_job(job):
+    if job['backend'] == 'fortran':
+        # f2py/meson are missing here: the harness-level stand-in compiles the emitted file with gfortran, so that the
+        # cell runs past the tool chain and the guards (and the numbers) are actually exercised
+        from .. import f2pystub
+        f2pystub.install()
     spec = base_spec(job['delay'])
     ct = build_python(spec)
     wd = tv.scratch_dir()
@@ -107,7 +112,7 @@ def cell_job(job):
                     out['detail'] = f"shape={vals.shape} finite={bool(np.all(np.isfinite(vals)))}"
             except Exception as e:   # noqa
                 msg = f"{type(e).__name__}: {e}"
-                if any(k in msg for k in ENV_ERRORS):
+                if any(k in msg for k in ENV_ERRORS) and 'gfortran:' not in msg:
                     out['outcome'] = 'env'       # passed every guard, failed at the missing f2py/meson toolchain
                 else:
                     out['outcome'] = 'raises'
